@@ -264,6 +264,13 @@ def _check(ctx, tmp):
     meta.append((Fraction(7), "usd", "usd"))
     settings = [("unset", None, "eur"), ("usd", "base-currency=usd\n", "usd"), ("gbp", "base-currency = gbp\n", "gbp"),
                 ("jpy", "base-currency=jpy\n", "jpy"), ("btc", "base-currency=btc\n", "btc"), ("absent", "base-currency=zzz\n", "eur")]
+    # a base whose NAME is shared by another row of the table (vef/ves, sll/sle, zwd/zwg in the built-in table):
+    # table names are not unique, only codes are
+    for twin in ("ves", "sle", "zwg"):
+        if twin in codes:
+            settings.append((twin, "base-currency=%s\n" % twin, twin))
+            if twin not in majors:
+                majors.append(twin)
     homes = [(nm, mkhome(root, "base-" + nm, config=cfg), want) for nm, cfg, want in settings]
     with ThreadPoolExecutor(max_workers=6) as ex:
         outs = list(ex.map(lambda h: run_batch(h[1], exprs, tmp, h[0]), homes))
